@@ -20,6 +20,8 @@ pub enum Call {
     /// text to deploy; `prog` (structured commands) and `fault_at` travel along for the judge
     Deploy { text: String, prog: Value, fault_at: usize },
     New { n: usize, cap: usize },
+    /// no call at all: a marker line for the judge ("pair" two handles, "compare" them)
+    Mark { what: String, of: usize, kind: String },
 }
 
 /// A call addressed to a handle.
@@ -69,6 +71,7 @@ impl HCall {
             Call::Merge { src, left, right } => json!({"op":"merge","src":src,"left":left,"right":right}),
             Call::Deploy { text, prog, fault_at } => json!({"op":"deploy","text":text,"prog":prog,"fault_at":fault_at}),
             Call::New { n, cap } => json!({"op":"new","n":n,"cap":cap}),
+            Call::Mark { what, of, kind } => json!({"op":what,"of":of,"kind":kind}),
         };
         o["h"] = json!(self.h);
         o
@@ -92,6 +95,7 @@ impl HCall {
             "merge" => Call::Merge { src: u("src"), left: u("left"), right: u("right") },
             "deploy" => Call::Deploy { text: unplace(&s("text")), prog: unplace_prog(&v.get("prog").cloned().unwrap_or(json!([]))), fault_at: v.get("fault_at").and_then(|x| x.as_u64()).unwrap_or(0) as usize },
             "new" => Call::New { n: u("n"), cap: u("cap") },
+            "pair" | "compare" => Call::Mark { what: s("op"), of: v.get("of").and_then(|x| x.as_u64()).unwrap_or(0) as usize, kind: v.get("kind").and_then(|x| x.as_str()).unwrap_or("").to_string() },
             o => panic!("unknown op {o}"),
         };
         HCall { h: v["h"].as_u64().unwrap_or(0) as usize, call }
@@ -171,6 +175,9 @@ impl World {
                 Err(p) => Ret::Panic(p),
             };
         }
+        if let Call::Mark { .. } = &c.call {
+            return Ret::Unit;
+        }
         if self.gs.get(h).map(|x| x.is_none()).unwrap_or(true) {
             panic!("harness: call on a null handle {h}");
         }
@@ -233,7 +240,7 @@ impl World {
                 Ok(Err(e)) => Ret::Err(e),
                 Ok(Ok(c)) => Ret::Count(c),
             },
-            Call::New { .. } => unreachable!(),
+            Call::New { .. } | Call::Mark { .. } => unreachable!(),
         }
     }
 
